@@ -35,12 +35,8 @@ Definition em_check (c : em_case) : bool :=
   let tickets := match filter (fun m => String.eqb (fst m) "TagAddBurnTicket") merged with
                  | m :: _ => snd m | [] => [] end in
   (list_eqb merged_eqb merged (ec_merged c) && Nat.eqb (List.length others) (ec_others c) &&
-   (* the handler keeps element 0 of the merged slice, whose order is Go's map order: one of the merged tickets *)
-   match ec_tickets c with
-   | [] => match tickets with [] => true | _ => false end
-   | [t] => existsb (item_eqb t) tickets
-   | _ => false
-   end)%bool.
+   (* one row per ticket of the merged event *)
+   multiset_eqb (ec_tickets c) (em_burn_tickets_stored tickets))%bool.
 
 (* tag names used by the engine's cases (short identifiers keep the case files small) *)
 Definition tgBurn : string := "TagAddBurnTicket".
